@@ -32,8 +32,8 @@ def parse_program(ctx, text, comment_map=False):
     prog = ctx.prog
     import world
     pdir = os.path.join(world.CACHE, 'parse')
-    pth = os.path.join(pdir, hashlib.sha256(text.encode()).hexdigest()[:32] + '.pkl')
-    if not comment_map and os.path.exists(pth):
+    pth = os.path.join(pdir, hashlib.sha256(text.encode()).hexdigest()[:32] + ('.cm' if comment_map else '') + '.pkl')
+    if os.path.exists(pth):
         try:
             ent = pickle.load(open(pth, 'rb'))
             if ent['dep_hash'] == _dep_hash(prog, ent['deps']):
@@ -53,7 +53,7 @@ def parse_program(ctx, text, comment_map=False):
     if sub.decisions:
         raise interp.Unsupported('parse of concrete text made symbolic decisions')
     _PARSE_MEMO[key] = r
-    if not comment_map:
+    if True:
         try:
             os.makedirs(pdir, exist_ok=True)
             deps = sorted(sub.funcs_touched)
